@@ -34,6 +34,7 @@ def run(prog: Program, rep: Report, tier: str):
     rep.rule("R06.2", "Literal marshaller rejects non-members with ValueError", floor=3)
     rep.rule("R06.3", "no aliasing of the input by container rows; no mutation of the input", floor=14)
     rep.rule("R06.4", "no ambient reads on marshal paths", floor=14)
+    rep.rule("R06.7", "marshal routines keep no call-time state (same answer on every call; shared with R12.8)", floor=14)
     rep.rule("R06.6", "the None member is not a catch-all: non-None values are rejected, not emitted raw (shared with R08.7)", floor=2)
     rep.rule("R06.5", "container marshallers convert keys/members with the context's routine for their type argument (shared with R05.2/R05.3)", floor=8)
     rows = C.handlers(prog, "marshal")
@@ -76,6 +77,13 @@ def run(prog: Program, rep: Report, tier: str):
         rep.check(not mut, "R06.3", c.qualname, f.loc, "does not mutate its input", f"mutates its input: {mut[:2]}", detail="mutation")
         amb = E.ambient_reads(prog, f, depth=2)
         rep.check(not amb, "R06.4", c.qualname, f.loc, "no ambient read on this marshal path", f"reads ambient state: {sorted(amb)[:3]}", detail="ambient")
+    # "the same on every call": a marshaller is cached per type, so it must not change itself while marshalling
+    for c in C.routine_classes(prog, "marshal"):
+        for name, m in c.methods.items():
+            if name == "__init__" or (c.name.startswith("Delayed") and name == "resolved"):
+                continue
+            ws = [w for w in E.state_writes(prog, m) if w[0].startswith("self")]
+            rep.check(not ws, "R06.7", m.qualname, m.loc, "keeps no call-time state", f"{name} rewrites the routine's own state {ws[:2]} while marshalling: the routine is cached per type, so later calls answer differently (e.g. member order of a union adapts to earlier values)", detail="state")
     # converted members (marshal-side taint)
     c03.r03_1(prog, rep, direction="marshal", rule="R06.1")
     c03.r03_4(prog, rep, direction="marshal", rule="R06.2")
